@@ -734,6 +734,22 @@ impl Watchdog {
     }
 }
 
+/// Panic payload: one world granted more loop iterations than any scenario of these checks comes
+/// near (a node that never goes quiet, e.g. back-to-back lookups on every tick): the scenario is
+/// abandoned and reported, instead of simulating hours of runaway traffic.
+#[derive(Debug, Clone)]
+pub struct Runaway {
+    pub steps: u64,
+    pub busiest_node: usize,
+    pub virtual_secs: u64,
+}
+
+/// Loop iterations one world may grant (the largest legitimate scenario, a 300-node network,
+/// needs about 0.4 million, the longest timeline less); lowered once a process has seen a runaway world.
+pub const STEP_BUDGET: u64 = 5_000_000;
+pub const STEP_BUDGET_AFTER_A_RUNAWAY: u64 = 1_500_000;
+static RUNAWAYS_SEEN: std::sync::atomic::AtomicU32 = std::sync::atomic::AtomicU32::new(0);
+
 /// Panic payload: a scenario asked for the state of a node whose actor thread panicked or is
 /// stuck inside the library.
 #[derive(Debug, Clone)]
@@ -1070,6 +1086,12 @@ impl World {
         }
         self.nodes[node].iterations += 1;
         self.steps += 1;
+        let budget = if RUNAWAYS_SEEN.load(Ordering::SeqCst) > 0 { STEP_BUDGET_AFTER_A_RUNAWAY } else { STEP_BUDGET };
+        if self.steps > budget && !std::thread::panicking() {
+            RUNAWAYS_SEEN.fetch_add(1, Ordering::SeqCst);
+            let busiest = (0..self.nodes.len()).max_by_key(|i| self.nodes[*i].iterations).unwrap_or(0);
+            std::panic::panic_any(Runaway { steps: self.steps, busiest_node: busiest, virtual_secs: (self.now - T0) / SEC });
+        }
         self.collect_outbox();
         let rt = {
             let g = shared();
@@ -1972,8 +1994,12 @@ impl World {
     }
 }
 
+/// Largest number of loop iterations any world of this process has granted.
+pub static MAX_STEPS_IN_ONE_WORLD: AtomicU64 = AtomicU64::new(0);
+
 impl Drop for World {
     fn drop(&mut self) {
+        MAX_STEPS_IN_ONE_WORLD.fetch_max(self.steps, Ordering::SeqCst);
         // Pending futures hold channel handles only; drop them first.
         for c in self.calls.iter_mut() {
             c.fut = None;
